@@ -101,6 +101,16 @@ pub(crate) mod verif_support {
     /// `<Value as Clone>::clone`, restricted to what harnesses clone: scalars and strings are
     /// cloned for real, containers are cloned shallowly as an *empty* container of the same kind
     /// (harnesses that use this stub only clone scalars, or containers whose content they never read).
+    fn clone_scalar(v: &Value) -> Value {
+        match v {
+            Value::Null => Value::Null,
+            Value::Bool(b) => Value::Bool(*b),
+            Value::Number(n) => Value::Number(n.clone()),
+            Value::String(s) => Value::String(s.clone()),
+            Value::Array(_) => Value::Array(Vec::new()),
+            Value::Object(_) => Value::Object(Map::new()),
+        }
+    }
     pub fn value_clone_shallow(v: &Value) -> Value {
         match v {
             Value::Null => Value::Null,
@@ -108,19 +118,18 @@ pub(crate) mod verif_support {
             Value::Number(n) => Value::Number(n.clone()),
             Value::String(s) => Value::String(s.clone()),
             Value::Array(a) => {
-                // one level: elements that are scalars/strings are cloned, nested containers become empty
-                let mut out: Vec<Value> = Vec::with_capacity(4);
-                let mut i = 0;
-                while i < a.len() {
-                    out.push(match &a[i] {
-                        Value::Null => Value::Null,
-                        Value::Bool(b) => Value::Bool(*b),
-                        Value::Number(n) => Value::Number(n.clone()),
-                        Value::String(s) => Value::String(s.clone()),
-                        Value::Array(_) => Value::Array(Vec::new()),
-                        Value::Object(_) => Value::Object(Map::new()),
-                    });
-                    i += 1;
+                // one level, at most 3 elements, straight-line (a loop here is unwound to the harness bound
+                // whenever CBMC cannot see the source's tag: measured 18 x 10 iterations, > 300 s)
+                let mut out: Vec<Value> = Vec::with_capacity(3);
+                assert!(a.len() <= 3, "clone stub: arrays of at most 3 elements");
+                if a.len() > 0 {
+                    out.push(clone_scalar(&a[0]));
+                }
+                if a.len() > 1 {
+                    out.push(clone_scalar(&a[1]));
+                }
+                if a.len() > 2 {
+                    out.push(clone_scalar(&a[2]));
                 }
                 Value::Array(out)
             }
@@ -186,6 +195,11 @@ pub(crate) mod verif_support {
         /// 0 = Err, 1 = Ok(Evaluated::New(value)), 2 = Ok(Evaluated::Raw(&value))
         pub static mut OUT_CLASS: [u8; MAXN] = [0; MAXN];
         pub static mut OUT_VAL: [*const Value; MAXN] = [std::ptr::null(); MAXN];
+        /// when set, the outcome value is the number OUT_U64[i], built fresh by the stub (constant tag for CBMC)
+        pub static mut OUT_IS_NUM: [bool; MAXN] = [false; MAXN];
+        pub static mut OUT_U64: [u64; MAXN] = [0; MAXN];
+        pub static mut MULTI_IS_NUM: [bool; 6] = [false; 6];
+        pub static mut MULTI_U64: [u64; 6] = [0; 6];
         pub static mut PARSE_COUNT: [u8; MAXN] = [0; MAXN];
         pub static mut LOG_NODE: [usize; 16] = [0; 16];
         pub static mut LOG_DATA: [*const Value; 16] = [std::ptr::null(); 16];
@@ -224,6 +238,21 @@ pub(crate) mod verif_support {
                 OUT_VAL[i] = out;
                 N_NODES = i + 1;
                 i
+            }
+        }
+        pub fn register_num(v: &Value, class: u8, out: *const Value, u: u64) -> usize {
+            let i = register(v, class, out);
+            unsafe {
+                OUT_IS_NUM[i] = true;
+                OUT_U64[i] = u;
+            }
+            i
+        }
+        pub fn set_multi_outcome_num(call: usize, class: u8, out: *const Value, u: u64) {
+            set_multi_outcome(call, class, out);
+            unsafe {
+                MULTI_IS_NUM[call] = true;
+                MULTI_U64[call] = u;
             }
         }
         pub fn node_index(v: *const Value) -> Option<usize> {
